@@ -185,7 +185,12 @@ class Gen:
         rng = self.rng
         nk = rng.randint(4, 8)
         keys = rng.sample(KEYPOOL, nk)
-        body = [Decl(['典'], Dict([(Str(k), value(rng, 1)) for k in keys]))]
+        kvs = [(Str(k), value(rng, 1)) for k in keys]
+        if rng.random() < 0.35:
+            # a literal that names a key again: the key keeps its first place and takes the last value, whatever the map does
+            for _ in range(rng.randint(1, 2)):
+                kvs.insert(rng.randint(1, len(kvs)), (Str(rng.choice(keys)), value(rng, 1)))
+        body = [Decl(['典'], Dict(kvs))]
         for _ in range(rng.randint(0, 4)):
             if rng.random() < 0.6:
                 body.append(ExprS(MCall(Var('典'), [('写入', [Str(rng.choice(KEYPOOL)), scalar(rng)])])))
